@@ -27,6 +27,7 @@ def analyse(ctx: CheckContext, p: Program):
     ctx.guard(inval.check_indices, ctx, eng, funcs)
     ctx.guard(inval.check_stale_derived, ctx, eng, funcs)
     ctx.guard(inval.check_source_column_readonly, ctx, eng)
+    ctx.guard(inval.check_count_guard, ctx, eng, funcs)
 
 
 def run(ctx: CheckContext):
